@@ -1,4 +1,921 @@
+/-
+  C17 — property theorems for the accept boundary / type-ahead model (`Ptk.Model.C17`).
+
+  All theorems quantify over EVERY schedule `evs : List Ev` (writes of any chunks, reads of any
+  size at any time, starts and finishes anywhere — also nonsensical ones, which the model treats
+  like the code does: a start while running and a finish without result are no-ops, a read while
+  nothing runs is ignored), every key stream and every placement of CPR reports.
+
+  Main results
+    no_loss_no_dup                 conservation of the typed key stream, in order
+    results_are_segments / results_eq_take / results_schedule_independent
+    k_lines_k_prompts              k lines -> the prompts return exactly these lines (any editor)
+    all_at_once_k_prompts / script_all_at_once   fair schedule: all k prompts DO finish
+    waiting_prompt_has_everything_read / accepted_prompt_keeps_later_keys /
+    idle_state_keeps_everything    where every key is, in each phase
+    accepted_line_frozen           keys after the accepting key never touch the accepted line
+    after_accept_goes_next         they are replayed, in order, to the next prompt
+    process_keys_splits_at_accept / process_keys_applies_all / processKeys_stable
+    cpr_never_text                 CPR reports are never applied, stored or returned
+
+  PARTIAL (stated in DESIGN §7 C17): timer expiry (`_Flush`, `flush_input`) and the bytes→keys
+  parser are not in the model; OS pipe / event loop scheduling are the nondeterministic schedule.
+-/
 import Ptk.Model.C17
 namespace Ptk.C17
-theorem dropCpr_nil : dropCpr [] = [] := rfl
+open Ptk.Py
+theorem dropCpr_append (a b : List Key) : dropCpr (a ++ b) = dropCpr a ++ dropCpr b := by
+  induction a with
+  | nil => rfl
+  | cons k a ih => simp only [List.cons_append, dropCpr]; split <;> simp [ih]
+theorem countCpr_append (a b : List Key) : countCpr (a ++ b) = countCpr a + countCpr b := by
+  induction a with
+  | nil => simp [countCpr]
+  | cons k a ih => simp only [List.cons_append, countCpr]; split <;> omega
+theorem dropCpr_idem (a : List Key) : dropCpr (dropCpr a) = dropCpr a := by
+  induction a with
+  | nil => rfl
+  | cons k a ih =>
+    simp only [dropCpr]; split
+    · exact ih
+    · rename_i h; simp [dropCpr, h, ih]
+theorem hasCpr_eq_false_iff (q : List Key) : hasCpr q = false ↔ countCpr q = 0 := by
+  induction q with
+  | nil => simp [hasCpr, countCpr]
+  | cons k q ih => cases h : k.isCpr <;> simp [hasCpr, countCpr, h, ih]
+theorem dropCpr_of_count_zero (q : List Key) (h : countCpr q = 0) : dropCpr q = q := by
+  induction q with
+  | nil => rfl
+  | cons k q ih =>
+    cases hk : k.isCpr <;> simp [countCpr, hk] at h
+    simp [dropCpr, hk, ih h]
+theorem countCpr_dropCpr (q : List Key) : countCpr (dropCpr q) = 0 := by
+  induction q with
+  | nil => rfl
+  | cons k q ih => cases hk : k.isCpr <;> simp [dropCpr, countCpr, hk, ih]
+theorem removeFirstCpr_spec (q : List Key) (h : hasCpr q = true) :
+    dropCpr (removeFirstCpr q) = dropCpr q ∧ countCpr (removeFirstCpr q) + 1 = countCpr q := by
+  induction q with
+  | nil => simp [hasCpr] at h
+  | cons k q ih =>
+    cases hk : k.isCpr
+    · simp [hasCpr, hk] at h
+      have := ih h
+      simp [removeFirstCpr, dropCpr, countCpr, hk, this.1, this.2]
+    · simp [removeFirstCpr, dropCpr, countCpr, hk]
+theorem countCpr_le_length (q : List Key) : countCpr q ≤ q.length := by
+  induction q with
+  | nil => simp [countCpr]
+  | cons k q ih => simp only [countCpr, List.length_cons]; split <;> omega
+
+/-- closed form of `process_keys` once the result is set: exactly the CPR responses are consumed -/
+def afterDone (q : List Key) (f : Key) (a : List Key) (c : Nat) : KP :=
+  ⟨dropCpr q, some f, a, c + countCpr q⟩
+
+theorem iter_done (n : Nat) : ∀ (q : List Key) (f : Key) (a : List Key) (c : Nat),
+    countCpr q ≤ n → iter n ⟨q, some f, a, c⟩ = afterDone q f a c := by
+  induction n with
+  | zero =>
+    intro q f a c h
+    have h0 : countCpr q = 0 := by omega
+    simp [iter, afterDone, h0, dropCpr_of_count_zero q h0]
+  | succ n ih =>
+    intro q f a c h
+    cases hq : hasCpr q
+    · have h0 := (hasCpr_eq_false_iff q).1 hq
+      simp [iter, procStep, notEmpty, hq, afterDone, h0, dropCpr_of_count_zero q h0]
+    · have sp := removeFirstCpr_spec q hq
+      simp only [iter, procStep, notEmpty, Option.isSome_some, if_true, hq, handle]
+      rw [ih _ _ _ _ (by omega)]
+      simp only [afterDone, sp.1]
+      congr 1; omega
+
+/-- closed form of `process_keys` while no result is set -/
+def live (a : List Key) (c : Nat) : List Key → KP
+  | [] => ⟨[], none, a, c⟩
+  | .cpr :: q => live a (c + 1) q
+  | .other n :: q => live (a ++ [.other n]) c q
+  | .accept :: q => afterDone q .accept a c
+  | .abort :: q => afterDone q .abort a c
+  | .cj :: q => afterDone q .accept a c
+
+theorem iter_live : ∀ (q : List Key) (n : Nat) (a : List Key) (c : Nat),
+    q.length + 1 ≤ n → iter n ⟨q, none, a, c⟩ = live a c q := by
+  intro q
+  induction q with
+  | nil =>
+    intro n a c _
+    cases n <;> simp [iter, procStep, notEmpty, live]
+  | cons k q ih =>
+    intro n a c h
+    obtain ⟨m, rfl⟩ : ∃ m, n = m + 1 := ⟨n - 1, by simp at h; omega⟩
+    have hm : q.length + 1 ≤ m := by simp at h; omega
+    have hc := countCpr_le_length q
+    cases k with
+    | cpr => simp [iter, procStep, notEmpty, handle, live, ih m a (c + 1) hm]
+    | other x => simp [iter, procStep, notEmpty, handle, live, ih m _ c hm]
+    | accept => simp [iter, procStep, notEmpty, handle, live, iter_done m q _ a c (by omega)]
+    | abort => simp [iter, procStep, notEmpty, handle, live, iter_done m q _ a c (by omega)]
+    | cj =>
+      obtain ⟨m', rfl⟩ : ∃ m', m = m' + 1 := ⟨m - 1, by omega⟩
+      simp [iter, procStep, notEmpty, handle, live, iter_done m' q _ a c (by omega)]
+
+theorem processKeys_live (q a : List Key) (c : Nat) :
+    processKeys ⟨q, none, a, c⟩ = live a c q := by
+  unfold processKeys; exact iter_live q _ a c (by simp; omega)
+
+theorem processKeys_done (q : List Key) (f : Key) (a : List Key) (c : Nat) :
+    processKeys ⟨q, some f, a, c⟩ = afterDone q f a c := by
+  unfold processKeys; exact iter_done _ q f a c (by have := countCpr_le_length q; simp; omega)
+
+
+/-! ### the loop really ended: its condition is false afterwards -/
+theorem procStep_afterDone (q : List Key) (f : Key) (a : List Key) (c : Nat) :
+    procStep (afterDone q f a c) = none := by
+  have : hasCpr (dropCpr q) = false := (hasCpr_eq_false_iff _).2 (countCpr_dropCpr q)
+  simp [procStep, notEmpty, afterDone, this]
+
+theorem procStep_live (q a : List Key) (c : Nat) : procStep (live a c q) = none := by
+  induction q generalizing a c with
+  | nil => simp [live, procStep, notEmpty]
+  | cons k q ih =>
+    cases k <;> simp only [live] <;> first | exact ih _ _ | exact procStep_afterDone _ _ _ _
+
+/-! ### normal form of a key stream and conservation -/
+def normKey : Key → Key
+  | .cj => .accept
+  | k => k
+
+/-- what a key stream means to the prompts: CPR reports are not keys, c-j is Enter -/
+def norm (l : List Key) : List Key := (dropCpr l).map normKey
+
+theorem norm_append (a b : List Key) : norm (a ++ b) = norm a ++ norm b := by
+  simp [norm, dropCpr_append]
+
+theorem norm_dropCpr (a : List Key) : norm (dropCpr a) = norm a := by
+  simp [norm, dropCpr_idem]
+
+theorem norm_nil : norm [] = [] := rfl
+
+/-- the keys the current application has taken so far, including the key that ended it -/
+def cur (p : KP) : List Key :=
+  p.applied ++ (match p.done with | some f => [f] | none => [])
+
+theorem afterDone_conserve (q : List Key) (f : Key) (a : List Key) (c : Nat) :
+    cur (afterDone q f a c) ++ norm (afterDone q f a c).queue = a ++ [f] ++ norm q := by
+  simp [cur, afterDone, norm_dropCpr]
+
+theorem live_conserve (q a : List Key) (c : Nat) :
+    cur (live a c q) ++ norm (live a c q).queue = a ++ norm q := by
+  induction q generalizing a c with
+  | nil => simp [live, cur, norm, dropCpr]
+  | cons k q ih =>
+    cases k with
+    | cpr => simp only [live]; rw [ih]; simp [norm, dropCpr, Key.isCpr]
+    | other x => simp only [live]; rw [ih]; simp [norm, dropCpr, Key.isCpr, normKey]
+    | accept => simp only [live]; rw [afterDone_conserve]; simp [norm, dropCpr, Key.isCpr, normKey]
+    | abort => simp only [live]; rw [afterDone_conserve]; simp [norm, dropCpr, Key.isCpr, normKey]
+    | cj => simp only [live]; rw [afterDone_conserve]; simp [norm, dropCpr, Key.isCpr, normKey]
+
+theorem processKeys_conserve (p : KP) :
+    cur (processKeys p) ++ norm (processKeys p).queue = cur p ++ norm p.queue := by
+  obtain ⟨q, d, a, c⟩ := p
+  cases d with
+  | none => rw [processKeys_live, live_conserve]; simp [cur]
+  | some f => rw [processKeys_done, afterDone_conserve]; simp [cur]
+
+
+/-! ### facts about the closed forms -/
+def Key.isOther : Key → Bool
+  | .other _ => true
+  | _ => false
+
+/-- only ordinary key presses (no accepting key, no CPR report, no c-j) -/
+def AllOther (l : List Key) : Prop := ∀ k ∈ l, k.isOther = true
+
+theorem AllOther.nil : AllOther [] := by intro k h; cases h
+theorem AllOther.append {a b : List Key} (ha : AllOther a) (hb : AllOther b) : AllOther (a ++ b) := by
+  intro k h; rcases List.mem_append.1 h with h | h
+  · exact ha k h
+  · exact hb k h
+
+def NoCpr (l : List Key) : Prop := countCpr l = 0
+
+theorem noCpr_dropCpr (q : List Key) : NoCpr (dropCpr q) := countCpr_dropCpr q
+theorem NoCpr.append {a b : List Key} (ha : NoCpr a) (hb : NoCpr b) : NoCpr (a ++ b) := by
+  unfold NoCpr at *; rw [countCpr_append]; omega
+theorem AllOther.noCpr {l : List Key} (h : AllOther l) : NoCpr l := by
+  induction l with
+  | nil => rfl
+  | cons k l ih =>
+    have hk := h k (List.mem_cons_self ..)
+    have : AllOther l := fun x hx => h x (List.mem_cons_of_mem _ hx)
+    cases k <;> simp [Key.isOther] at hk
+    simp [NoCpr, countCpr, Key.isCpr]; exact ih this
+
+/-- what `process_keys` guarantees about the state it leaves -/
+structure Settled (p : KP) : Prop where
+  applied : AllOther p.applied
+  fin : ∀ f, p.done = some f → f.isFin = true
+  drained : p.done = none → p.queue = []
+  noCpr : NoCpr p.queue
+
+theorem settled_afterDone (q : List Key) (f : Key) (a : List Key) (c : Nat)
+    (ha : AllOther a) (hf : f.isFin = true) : Settled (afterDone q f a c) :=
+  ⟨ha, by intro g h; simp [afterDone] at h; subst h; exact hf,
+   by intro h; simp [afterDone] at h, noCpr_dropCpr q⟩
+
+theorem settled_live (q a : List Key) (c : Nat) (ha : AllOther a) : Settled (live a c q) := by
+  induction q generalizing a c with
+  | nil => exact ⟨ha, by simp [live], by simp [live], rfl⟩
+  | cons k q ih =>
+    cases k with
+    | cpr => exact ih a (c + 1) ha
+    | other x =>
+      exact ih _ c (ha.append (by intro k hk; simp at hk; subst hk; rfl))
+    | accept => exact settled_afterDone q _ a c ha rfl
+    | abort => exact settled_afterDone q _ a c ha rfl
+    | cj => exact settled_afterDone q _ a c ha rfl
+
+theorem settled_processKeys (p : KP) (ha : AllOther p.applied)
+    (hf : ∀ f, p.done = some f → f.isFin = true) : Settled (processKeys p) := by
+  obtain ⟨q, d, a, c⟩ := p
+  cases d with
+  | none => rw [processKeys_live]; exact settled_live q a c ha
+  | some f => rw [processKeys_done]; exact settled_afterDone q f a c ha (hf f rfl)
+
+/-- once the result is set, `process_keys` changes neither the applied keys nor the result -/
+theorem processKeys_frozen (q : List Key) (f : Key) (a : List Key) (c : Nat) :
+    (processKeys ⟨q, some f, a, c⟩).applied = a ∧ (processKeys ⟨q, some f, a, c⟩).done = some f ∧
+    (processKeys ⟨q, some f, a, c⟩).queue = dropCpr q ∧
+    (processKeys ⟨q, some f, a, c⟩).cprs = c + countCpr q := by
+  rw [processKeys_done]; simp [afterDone]
+
+/-! ### the reachable states -/
+def idleKP : KP := ⟨[], none, [], 0⟩
+
+def flat : List Res → List Key
+  | [] => []
+  | r :: rs => r.1 ++ [r.2] ++ flat rs
+
+theorem flat_append (a b : List Res) : flat (a ++ b) = flat a ++ flat b := by
+  induction a with
+  | nil => rfl
+  | cons r a ih => simp [flat, ih]
+
+/-- a finished prompt: only ordinary keys were applied, and an accepting key ended it -/
+def GoodRes (r : Res) : Prop := AllOther r.1 ∧ r.2.isFin = true
+
+structure Inv (s : St) (w : List Key) : Prop where
+  /-- conservation: consumed keys ++ keys still waiting = typed keys, in order -/
+  cons : flat s.results ++ cur s.kp ++ norm s.typeahead ++ norm s.kp.queue ++ norm s.pipe = norm w
+  settled : Settled s.kp
+  idle : s.running = false → s.kp = idleKP
+  taEmpty : s.running = true → s.typeahead = []
+  taNoCpr : NoCpr s.typeahead
+  results : ∀ r ∈ s.results, GoodRes r
+
+theorem inv_init : Inv St.init [] :=
+  ⟨rfl, ⟨AllOther.nil, by simp [St.init], by simp [St.init], rfl⟩, fun _ => rfl,
+   fun h => by simp [St.init] at h, rfl, by intro r h; cases h⟩
+
+def evWritten : Ev → List Key
+  | .write c => c
+  | _ => []
+
+theorem settled_idle : Settled idleKP :=
+  ⟨AllOther.nil, by simp [idleKP], by simp [idleKP], rfl⟩
+
+theorem inv_step {s : St} {w : List Key} (h : Inv s w) (e : Ev) :
+    Inv (step s e) (w ++ evWritten e) := by
+  cases e with
+  | write c =>
+    refine ⟨?_, h.settled, h.idle, h.taEmpty, h.taNoCpr, h.results⟩
+    simp only [step, evWritten, norm_append, ← h.cons]; simp
+  | start =>
+    simp only [step, evWritten, List.append_nil]
+    cases hr : s.running with
+    | true => simpa [hr] using h
+    | false =>
+      simp only [Bool.false_eq_true, if_false]
+      have hk := h.idle hr
+      have hc := h.cons
+      rw [hk] at hc
+      have hs : Settled (processKeys ⟨s.typeahead, none, [], 0⟩) :=
+        settled_processKeys _ AllOther.nil (by simp)
+      refine ⟨?_, hs, by simp, by simp, rfl, h.results⟩
+      have pc := processKeys_conserve ⟨s.typeahead, none, [], 0⟩
+      simp only [norm_nil, List.append_nil]
+      rw [List.append_assoc (flat s.results), pc, ← hc]
+      simp [cur, idleKP, norm_nil]
+  | read n =>
+    simp only [step, evWritten, List.append_nil]
+    cases hr : s.running with
+    | false => simpa [hr] using h
+    | true =>
+      simp only [Bool.not_true, Bool.false_eq_true, if_false]
+      have hta := h.taEmpty hr
+      have hs : Settled (processKeys { s.kp with queue := s.kp.queue ++ s.pipe.take n }) :=
+        settled_processKeys _ h.settled.applied h.settled.fin
+      refine ⟨?_, hs, by simp, by intro _; exact hta, h.taNoCpr, h.results⟩
+      have pc := processKeys_conserve { s.kp with queue := s.kp.queue ++ s.pipe.take n }
+      have hc := h.cons
+      rw [hta] at hc ⊢
+      simp only [norm_nil, List.append_nil] at hc ⊢
+      rw [List.append_assoc (flat s.results), pc, ← hc]
+      have : norm s.pipe = norm (s.pipe.take n) ++ norm (s.pipe.drop n) := by
+        rw [← norm_append, List.take_append_drop]
+      simp [cur, norm_append, this]
+  | finish =>
+    simp only [step, evWritten, List.append_nil]
+    cases hr : s.running with
+    | false => simpa [hr] using h
+    | true =>
+      cases hd : s.kp.done with
+      | none => simpa [hr, hd] using h
+      | some f =>
+        simp only []
+        have hta := h.taEmpty hr
+        refine ⟨?_, settled_idle, fun _ => rfl, by simp, ?_, ?_⟩
+        · have hc := h.cons
+          simp only [cur, hd] at hc
+          rw [← hc]
+          simp [flat_append, flat, cur, norm_append, norm_dropCpr, norm_nil]
+        · exact h.taNoCpr.append (noCpr_dropCpr _)
+        · intro r hrm
+          rcases List.mem_append.1 hrm with hrm | hrm
+          · exact h.results r hrm
+          · simp at hrm; subst hrm
+            exact ⟨h.settled.applied, h.settled.fin f hd⟩
+
+theorem written_eq (evs : List Ev) : written evs = (evs.map evWritten).flatten := by
+  induction evs with
+  | nil => rfl
+  | cons e es ih => cases e <;> simp [written, evWritten, ih]
+
+theorem inv_run {s : St} {w : List Key} (h : Inv s w) (evs : List Ev) :
+    Inv (run s evs) (w ++ written evs) := by
+  induction evs generalizing s w with
+  | nil => simpa [run, written] using h
+  | cons e es ih =>
+    have := ih (inv_step h e)
+    simp only [run]
+    have hw : w ++ written (e :: es) = w ++ evWritten e ++ written es := by
+      cases e <;> simp [written, evWritten]
+    rw [hw]; exact this
+
+
+/-! ### cutting a key stream at the accepting keys -/
+def NoFin (l : List Key) : Prop := ∀ k ∈ l, k.isFin = false
+
+theorem AllOther.noFin {l : List Key} (h : AllOther l) : NoFin l := by
+  intro k hk; have := h k hk; cases k <;> simp [Key.isOther] at this; rfl
+
+/-- the complete lines of a key stream: (keys of the line, the key that ended it) -/
+def segs : List Key → List Key → List Res
+  | _, [] => []
+  | acc, k :: l => if k.isFin then (acc, k) :: segs [] l else segs (acc ++ [k]) l
+
+def segments (l : List Key) : List Res := segs [] l
+
+/-- the keys after the last accepting key -/
+def rest : List Key → List Key → List Key
+  | acc, [] => acc
+  | acc, k :: l => if k.isFin then rest [] l else rest (acc ++ [k]) l
+
+def unfinished (l : List Key) : List Key := rest [] l
+
+theorem segs_line (acc a : List Key) (f : Key) (l : List Key) (ha : NoFin a) (hf : f.isFin = true) :
+    segs acc (a ++ f :: l) = (acc ++ a, f) :: segs [] l := by
+  induction a generalizing acc with
+  | nil => simp [segs, hf]
+  | cons k a ih =>
+    have hk : k.isFin = false := ha k (List.mem_cons_self ..)
+    have ha' : NoFin a := fun x hx => ha x (List.mem_cons_of_mem _ hx)
+    simp only [List.cons_append, segs, hk, Bool.false_eq_true, if_false]
+    rw [ih _ ha']; simp
+
+theorem segs_noFin (acc a : List Key) (ha : NoFin a) : segs acc a = [] := by
+  induction a generalizing acc with
+  | nil => rfl
+  | cons k a ih =>
+    have hk : k.isFin = false := ha k (List.mem_cons_self ..)
+    have ha' : NoFin a := fun x hx => ha x (List.mem_cons_of_mem _ hx)
+    simp only [segs, hk, Bool.false_eq_true, if_false]; exact ih _ ha'
+
+theorem rest_line (acc a : List Key) (f : Key) (l : List Key) (ha : NoFin a) (hf : f.isFin = true) :
+    rest acc (a ++ f :: l) = rest [] l := by
+  induction a generalizing acc with
+  | nil => simp [rest, hf]
+  | cons k a ih =>
+    have hk : k.isFin = false := ha k (List.mem_cons_self ..)
+    have ha' : NoFin a := fun x hx => ha x (List.mem_cons_of_mem _ hx)
+    simp only [List.cons_append, rest, hk, Bool.false_eq_true, if_false]
+    exact ih _ ha'
+
+theorem rest_noFin (acc a : List Key) (ha : NoFin a) : rest acc a = acc ++ a := by
+  induction a generalizing acc with
+  | nil => simp [rest]
+  | cons k a ih =>
+    have hk : k.isFin = false := ha k (List.mem_cons_self ..)
+    have ha' : NoFin a := fun x hx => ha x (List.mem_cons_of_mem _ hx)
+    simp only [rest, hk, Bool.false_eq_true, if_false]; rw [ih _ ha']; simp
+
+/-- the decomposition into lines is unique: whatever follows, well-formed results that
+    start a stream are its first segments -/
+theorem segments_flat (R : List Res) (x : List Key) (hR : ∀ r ∈ R, GoodRes r) :
+    segments (flat R ++ x) = R ++ segments x := by
+  induction R with
+  | nil => rfl
+  | cons r R ih =>
+    have hr := hR r (List.mem_cons_self ..)
+    have hR' : ∀ r ∈ R, GoodRes r := fun y hy => hR y (List.mem_cons_of_mem _ hy)
+    have e : flat (r :: R) ++ x = r.1 ++ r.2 :: (flat R ++ x) := by simp [flat]
+    have := segs_line [] r.1 r.2 (flat R ++ x) hr.1.noFin hr.2
+    rw [e]; unfold segments at ih ⊢
+    rw [this, ih hR']; simp
+
+theorem unfinished_flat (R : List Res) (x : List Key) (hR : ∀ r ∈ R, GoodRes r) :
+    unfinished (flat R ++ x) = unfinished x := by
+  induction R with
+  | nil => rfl
+  | cons r R ih =>
+    have hr := hR r (List.mem_cons_self ..)
+    have hR' : ∀ r ∈ R, GoodRes r := fun y hy => hR y (List.mem_cons_of_mem _ hy)
+    have e : flat (r :: R) ++ x = r.1 ++ r.2 :: (flat R ++ x) := by simp [flat]
+    have := rest_line [] r.1 r.2 (flat R ++ x) hr.1.noFin hr.2
+    rw [e]; unfold unfinished at ih ⊢
+    rw [this]; exact ih hR'
+
+
+/-! ## The property theorems -/
+
+/-- every state a schedule can reach from the initial state satisfies the invariant -/
+theorem reachable_inv (evs : List Ev) : Inv (run St.init evs) (written evs) := by
+  simpa using inv_run inv_init evs
+
+/-- **No key is lost, duplicated or reordered**, for every schedule (any chunking of the writes,
+    any read sizes, any placement of starts / finishes, CPR reports anywhere):
+    keys consumed by the finished prompts ++ keys taken by the current prompt ++ type-ahead store
+    ++ input queue ++ unread pipe  =  the typed key stream (CPR reports removed, c-j = Enter). -/
+theorem no_loss_no_dup (evs : List Ev) :
+    ∀ s, s = run St.init evs →
+    flat s.results ++ cur s.kp ++ norm s.typeahead ++ norm s.kp.queue ++ norm s.pipe
+      = norm (written evs) :=
+  fun _ hs => hs ▸ (reachable_inv evs).cons
+
+/-- the finished prompts are exactly the first lines of the typed stream -/
+theorem results_are_segments (evs : List Ev) :
+    ∀ s, s = run St.init evs →
+    ∃ more, segments (norm (written evs)) = s.results ++ more := by
+  intro s hs
+  have h : Inv s (written evs) := hs ▸ reachable_inv evs
+  have hc := h.cons
+  simp only [List.append_assoc] at hc
+  refine ⟨segments (cur s.kp ++ (norm s.typeahead ++ (norm s.kp.queue ++ norm s.pipe))), ?_⟩
+  rw [← hc]; exact segments_flat _ _ h.results
+
+theorem results_eq_take (evs : List Ev) :
+    (run St.init evs).results =
+      (segments (norm (written evs))).take (run St.init evs).results.length := by
+  obtain ⟨more, h⟩ := results_are_segments evs _ rfl
+  rw [h]; simp
+
+/-- **Timing and chunking do not matter**: two schedules that type the same keys (possibly with
+    different CPR reports at different places) and complete the same number of prompts return
+    the same lines. -/
+theorem results_schedule_independent (evs₁ evs₂ : List Ev)
+    (hw : norm (written evs₁) = norm (written evs₂))
+    (hn : (run St.init evs₁).results.length = (run St.init evs₂).results.length) :
+    (run St.init evs₁).results = (run St.init evs₂).results := by
+  rw [results_eq_take evs₁, results_eq_take evs₂, hw, hn]
+
+/-- the script made of the given lines, each ended by Enter -/
+def script : List (List Key) → List Key
+  | [] => []
+  | l :: ls => l ++ [.accept] ++ script ls
+
+theorem script_eq_flat (lines : List (List Key)) :
+    script lines = flat (lines.map fun l => (l, Key.accept)) := by
+  induction lines with
+  | nil => rfl
+  | cons l ls ih => simp [script, flat, ih]
+
+/-- **k lines → k prompts**: if the typed stream (after removing CPR reports, c-j counted as Enter)
+    is `l₁ Enter l₂ Enter … l_k Enter tail`, then under every schedule the prompts that finish
+    return `l₁, l₂, …` in this order — for an arbitrary line editor `render` — and when k prompts
+    have finished they are exactly the k lines. -/
+theorem k_lines_k_prompts {α : Type} (render : List Key → α)
+    (lines : List (List Key)) (tail : List Key)
+    (hl : ∀ l ∈ lines, AllOther l) (ht : NoFin tail)
+    (evs : List Ev) (hw : norm (written evs) = script lines ++ tail) :
+    ∀ s, s = run St.init evs →
+    s.results.length ≤ lines.length ∧
+    s.results.map (fun r => (render r.1, r.2)) =
+      (lines.take s.results.length).map (fun l => (render l, Key.accept)) ∧
+    (s.results.length = lines.length → s.results.map (fun r => render r.1) = lines.map render) := by
+  intro s hs
+  have hgood : ∀ r ∈ lines.map (fun l => (l, Key.accept)), GoodRes r := by
+    intro r hr; simp at hr; obtain ⟨l, hl', rfl⟩ := hr; exact ⟨hl l hl', rfl⟩
+  have hseg : segments (norm (written evs)) = lines.map (fun l => (l, Key.accept)) := by
+    rw [hw, script_eq_flat, segments_flat _ _ hgood]
+    simp [segments, segs_noFin [] tail ht]
+  have ht := results_eq_take evs
+  rw [hseg, ← hs] at ht
+  have hlen : s.results.length ≤ lines.length := by
+    have := congrArg List.length ht
+    simp at this; omega
+  have hres : s.results = (lines.take s.results.length).map (fun l => (l, Key.accept)) := by
+    rw [List.map_take]; exact ht
+  generalize s.results.length = n at hres hlen
+  refine ⟨hlen, ?_, ?_⟩
+  · rw [hres]; simp [Function.comp_def]
+  · intro hk
+    rw [hres, hk]; simp [Function.comp_def]
+
+/-- **CPR reports never become text** (nor type-ahead): in every reachable state the keys applied
+    to the current prompt, the keys of every finished prompt and the type-ahead store contain no
+    CPR report, and a CPR report never ends a prompt. -/
+theorem cpr_never_text (evs : List Ev) :
+    ∀ s, s = run St.init evs →
+    NoCpr s.kp.applied ∧ NoCpr s.typeahead ∧
+    (∀ r ∈ s.results, NoCpr r.1 ∧ r.2.isCpr = false) ∧
+    (s.kp.done.isSome = true → NoCpr s.kp.queue) := by
+  intro s hs
+  have h : Inv s (written evs) := hs ▸ reachable_inv evs
+  refine ⟨h.settled.applied.noCpr, h.taNoCpr, ?_, fun _ => h.settled.noCpr⟩
+  intro r hr
+  have := h.results r hr
+  refine ⟨this.1.noCpr, ?_⟩
+  have h2 := this.2
+  cases hk : r.2 <;> simp [hk, Key.isFin, Key.isCpr] at h2 ⊢
+
+/-- **Nothing stays stuck**: while a prompt waits for its result, every key that was read has been
+    handed to the bindings (the queue is empty and the type-ahead store is empty), so the typed
+    stream is  finished lines ++ keys applied to this prompt ++ what is still unread in the pipe.
+    In particular a prompt can only wait forever if no accepting key is left outside the pipe. -/
+theorem waiting_prompt_has_everything_read (evs : List Ev) :
+    ∀ s, s = run St.init evs →
+    s.running = true → s.kp.done = none →
+    s.kp.queue = [] ∧ s.typeahead = [] ∧
+    norm (written evs) = flat s.results ++ s.kp.applied ++ norm s.pipe := by
+  intro s hs hr hd
+  have h : Inv s (written evs) := hs ▸ reachable_inv evs
+  have hq := h.settled.drained hd
+  have hta := h.taEmpty hr
+  refine ⟨hq, hta, ?_⟩
+  have hc := h.cons
+  rw [hq, hta] at hc
+  simp only [cur, hd, norm_nil, List.append_nil] at hc
+  exact hc.symm
+
+/-- **Keys after the accepting key are not applied to the accepted line**: between the accepting
+    key `f` and the end of the application, the typed stream is
+    finished lines ++ accepted line ++ [f] ++ queue (kept) ++ unread pipe. -/
+theorem accepted_prompt_keeps_later_keys (evs : List Ev) (f : Key) :
+    ∀ s, s = run St.init evs →
+    s.running = true → s.kp.done = some f →
+    norm (written evs) = flat s.results ++ s.kp.applied ++ [f] ++ norm s.kp.queue ++ norm s.pipe := by
+  intro s hs hr hd
+  have h : Inv s (written evs) := hs ▸ reachable_inv evs
+  have hta := h.taEmpty hr
+  have hc := h.cons
+  rw [hta] at hc
+  simp only [cur, hd, norm_nil, List.append_nil] at hc
+  rw [← hc]; simp
+
+/-- between two prompts everything unconsumed is in the type-ahead store or still in the pipe -/
+theorem idle_state_keeps_everything (evs : List Ev) :
+    ∀ s, s = run St.init evs →
+    s.running = false →
+    norm (written evs) = flat s.results ++ norm s.typeahead ++ norm s.pipe := by
+  intro s hs hr
+  have h : Inv s (written evs) := hs ▸ reachable_inv evs
+  have hc := h.cons
+  rw [h.idle hr] at hc
+  simp only [cur, idleKP, norm_nil, List.append_nil] at hc
+  exact hc.symm
+
+/-- **The accepted line is frozen**: once the result is set, no event except the end of the
+    application changes the applied keys, the result, or the list of finished prompts; reads only
+    consume CPR reports and keep every other key, in order, for the next prompt. -/
+theorem accepted_line_frozen (s : St) (f : Key) (e : Ev)
+    (hr : s.running = true) (hd : s.kp.done = some f) (he : e ≠ .finish) :
+    (step s e).kp.applied = s.kp.applied ∧ (step s e).kp.done = some f ∧
+    (step s e).results = s.results ∧ (step s e).running = true ∧
+    norm (step s e).kp.queue ++ norm (step s e).pipe = norm s.kp.queue ++ norm s.pipe ++ norm (evWritten e) := by
+  cases e with
+  | finish => exact absurd rfl he
+  | write c => simp [step, hr, hd, evWritten, norm_append]
+  | start => simp [step, hr, hd, evWritten, norm_nil]
+  | read n =>
+    obtain ⟨pipe, ta, ⟨q, d, a, c⟩, running, results⟩ := s
+    simp only at hr hd
+    subst hr hd
+    have := processKeys_frozen (q ++ pipe.take n) f a c
+    simp only [step, Bool.not_true, Bool.false_eq_true, if_false, evWritten, norm_nil,
+      List.append_nil]
+    refine ⟨this.1, this.2.1, trivial, trivial, ?_⟩
+    rw [this.2.2.1, norm_dropCpr, norm_append, List.append_assoc, ← norm_append,
+      List.take_append_drop]
+
+/-- what `process_keys` does with a queue `pre ++ f :: post` when no result is set yet and `f` is
+    the first accepting key: the keys before `f` are applied (CPR reports reported, not applied),
+    `f` sets the result, the keys after it stay in the queue in order, minus the CPR reports. -/
+theorem process_keys_splits_at_accept (pre post a : List Key) (c : Nat) (f : Key)
+    (hpre : ∀ k ∈ pre, k.isOther = true ∨ k.isCpr = true)
+    (hf : f.isFin = true ∨ f = .cj) :
+    processKeys ⟨pre ++ f :: post, none, a, c⟩ =
+      ⟨dropCpr post, some (normKey f), a ++ dropCpr pre, c + countCpr pre + countCpr post⟩ := by
+  rw [processKeys_live]
+  induction pre generalizing a c with
+  | nil =>
+    rcases hf with hf | rfl
+    · cases f <;> simp [Key.isFin] at hf <;> simp [live, afterDone, normKey, dropCpr, countCpr]
+    · simp [live, afterDone, normKey, dropCpr, countCpr]
+  | cons k pre ih =>
+    have hk := hpre k (List.mem_cons_self ..)
+    have hpre' : ∀ k ∈ pre, k.isOther = true ∨ k.isCpr = true :=
+      fun x hx => hpre x (List.mem_cons_of_mem _ hx)
+    cases k with
+    | cpr =>
+      simp only [List.cons_append, live]; rw [ih _ _ hpre']
+      simp [dropCpr, countCpr, Key.isCpr]; omega
+    | other x =>
+      simp only [List.cons_append, live]; rw [ih _ _ hpre']
+      simp [dropCpr, countCpr, Key.isCpr]
+    | accept => simp [Key.isOther, Key.isCpr] at hk
+    | abort => simp [Key.isOther, Key.isCpr] at hk
+    | cj => simp [Key.isOther, Key.isCpr] at hk
+
+/-- without an accepting key the whole queue is applied and the queue is empty afterwards -/
+theorem process_keys_applies_all (q a : List Key) (c : Nat)
+    (hq : ∀ k ∈ q, k.isOther = true ∨ k.isCpr = true) :
+    processKeys ⟨q, none, a, c⟩ = ⟨[], none, a ++ dropCpr q, c + countCpr q⟩ := by
+  rw [processKeys_live]
+  induction q generalizing a c with
+  | nil => simp [live, dropCpr, countCpr]
+  | cons k q ih =>
+    have hk := hq k (List.mem_cons_self ..)
+    have hq' : ∀ k ∈ q, k.isOther = true ∨ k.isCpr = true :=
+      fun x hx => hq x (List.mem_cons_of_mem _ hx)
+    cases k with
+    | cpr => simp only [live]; rw [ih _ _ hq']; simp [dropCpr, countCpr, Key.isCpr]; omega
+    | other x => simp only [live]; rw [ih _ _ hq']; simp [dropCpr, countCpr, Key.isCpr]
+    | accept => simp [Key.isOther, Key.isCpr] at hk
+    | abort => simp [Key.isOther, Key.isCpr] at hk
+    | cj => simp [Key.isOther, Key.isCpr] at hk
+
+/-- `process_keys` terminates with its loop condition false (the fuel of the model is enough) -/
+theorem processKeys_stable (p : KP) : procStep (processKeys p) = none := by
+  obtain ⟨q, d, a, c⟩ := p
+  cases d with
+  | none => rw [processKeys_live]; exact procStep_live q a c
+  | some f => rw [processKeys_done]; exact procStep_afterDone q f a c
+
+/-- **Keys after the accept go to the next prompt**: ending an application and starting the next
+    one on the same input hands the kept keys (queue without CPR reports), in order, to the new
+    application's `process_keys`, and the store is emptied. -/
+theorem after_accept_goes_next (s : St) (f : Key)
+    (hr : s.running = true) (hd : s.kp.done = some f) (hta : s.typeahead = []) :
+    (step s .finish).typeahead = dropCpr s.kp.queue ∧
+    (step s .finish).results = s.results ++ [(s.kp.applied, f)] ∧
+    (step (step s .finish) .start).kp = processKeys ⟨dropCpr s.kp.queue, none, [], 0⟩ ∧
+    (step (step s .finish) .start).typeahead = [] := by
+  simp [step, hr, hd, hta]
+
+/-- a read while no application is running is ignored (bytes stay in the pipe) -/
+theorem read_ignored_when_idle (s : St) (n : Nat) (hr : s.running = false) :
+    step s (.read n) = s := by
+  simp [step, hr]
+
+
+/-! ### a fair schedule completes: all bytes written first, then k prompts -/
+theorem run_append (s : St) (a b : List Ev) : run s (a ++ b) = run (run s a) b := by
+  induction a generalizing s with
+  | nil => rfl
+  | cons e a ih => simp [run, ih]
+
+/-- k times: start a prompt, let it read everything that is available, let it end -/
+def rounds (N : Nat) : Nat → List Ev
+  | 0 => []
+  | k + 1 => [.start, .read N, .finish] ++ rounds N k
+
+theorem inv_step_nowrite {s : St} {w : List Key} (h : Inv s w) (e : Ev) (he : evWritten e = []) :
+    Inv (step s e) w := by
+  have := inv_step h e; rw [he] at this; simpa using this
+
+theorem segments_noFin (l : List Key) (h : NoFin l) : segments l = [] := segs_noFin [] l h
+
+theorem step_start_idle (t : St) (h : t.running = false) :
+    step t .start = { t with typeahead := [], running := true,
+                             kp := processKeys ⟨t.typeahead, none, [], 0⟩ } := by
+  simp [step, h]
+
+theorem step_read_running (t : St) (n : Nat) (h : t.running = true) :
+    step t (.read n) = { t with pipe := t.pipe.drop n,
+                                kp := processKeys { t.kp with queue := t.kp.queue ++ t.pipe.take n } } := by
+  simp [step, h]
+
+theorem step_finish_done (t : St) (f : Key) (h : t.running = true) (hd : t.kp.done = some f) :
+    step t .finish = { t with running := false, results := t.results ++ [(t.kp.applied, f)],
+                              typeahead := t.typeahead ++ dropCpr t.kp.queue, kp := ⟨[], none, [], 0⟩ } := by
+  simp [step, h, hd]
+
+theorem one_round {s : St} {w : List Key} (N : Nat) (h : Inv s w) (hr : s.running = false)
+    (hp : s.pipe.length ≤ N) (hseg : segments (norm s.typeahead ++ norm s.pipe) ≠ []) :
+    let s' := run s [.start, .read N, .finish]
+    Inv s' w ∧ s'.running = false ∧ s'.pipe = [] ∧ s'.results.length = s.results.length + 1 := by
+  intro s'
+  have h1 : Inv (step s .start) w := inv_step_nowrite h _ rfl
+  have h2 : Inv (step (step s .start) (.read N)) w := inv_step_nowrite h1 _ rfl
+  have h3 : Inv (step (step (step s .start) (.read N)) .finish) w := inv_step_nowrite h2 _ rfl
+  have e' : s' = step (step (step s .start) (.read N)) .finish := rfl
+  have r1 : (step s .start).running = true := by rw [step_start_idle s hr]
+  have p1 : (step s .start).pipe = s.pipe := by rw [step_start_idle s hr]
+  have res1 : (step s .start).results = s.results := by rw [step_start_idle s hr]
+  have r2 : (step (step s .start) (.read N)).running = true := by
+    rw [step_read_running _ N r1]; exact r1
+  have p2 : (step (step s .start) (.read N)).pipe = [] := by
+    rw [step_read_running _ N r1]; simp only [p1]
+    exact List.drop_eq_nil_of_le hp
+  have res2 : (step (step s .start) (.read N)).results = s.results := by
+    rw [step_read_running _ N r1]; exact res1
+  -- the prompt has its result after reading everything
+  have hdone : ∃ f, (step (step s .start) (.read N)).kp.done = some f := by
+    cases hd : (step (step s .start) (.read N)).kp.done with
+    | some f => exact ⟨f, rfl⟩
+    | none =>
+      exfalso; apply hseg
+      have hq := h2.settled.drained hd
+      have hta := h2.taEmpty r2
+      have hc2 := h2.cons
+      rw [hq, hta, p2, res2] at hc2
+      simp only [cur, hd, norm_nil, List.append_nil] at hc2
+      have hc := h.cons
+      rw [h.idle hr] at hc
+      simp only [cur, idleKP, norm_nil, List.append_nil, List.append_assoc] at hc
+      have : norm s.typeahead ++ norm s.pipe = (step (step s .start) (.read N)).kp.applied :=
+        List.append_cancel_left (hc.trans hc2.symm)
+      rw [this]; exact segments_noFin _ h2.settled.applied.noFin
+  obtain ⟨f, hd⟩ := hdone
+  refine ⟨e' ▸ h3, ?_, ?_, ?_⟩
+  · rw [e', step_finish_done _ f r2 hd]
+  · rw [e', step_finish_done _ f r2 hd]; exact p2
+  · rw [e', step_finish_done _ f r2 hd]; simp [res2]
+
+theorem rounds_complete (N : Nat) (k : Nat) : ∀ {s : St} {w : List Key}, Inv s w →
+    s.running = false → s.pipe.length ≤ N →
+    k ≤ (segments (norm s.typeahead ++ norm s.pipe)).length →
+    Inv (run s (rounds N k)) w ∧ (run s (rounds N k)).running = false ∧
+    (run s (rounds N k)).results.length = s.results.length + k := by
+  induction k with
+  | zero => intro s w h hr _ _; exact ⟨h, hr, rfl⟩
+  | succ k ih =>
+    intro s w h hr hp hk
+    have hne : segments (norm s.typeahead ++ norm s.pipe) ≠ [] := by
+      intro e; rw [e] at hk; simp at hk
+    obtain ⟨h', hr', hp', hl'⟩ := one_round N h hr hp hne
+    simp only [rounds, run_append]
+    -- one line fewer is pending after the round
+    have hc := h.cons
+    rw [h.idle hr] at hc
+    simp only [cur, idleKP, norm_nil, List.append_nil, List.append_assoc] at hc
+    have hc' := h'.cons
+    rw [h'.idle hr'] at hc'
+    simp only [cur, idleKP, norm_nil, List.append_nil, List.append_assoc] at hc'
+    have e1 := segments_flat s.results (norm s.typeahead ++ norm s.pipe) h.results
+    have e2 := segments_flat _ (norm (run s [.start, .read N, .finish]).typeahead ++
+      norm (run s [.start, .read N, .finish]).pipe) h'.results
+    rw [hc] at e1; rw [hc'] at e2
+    have hlen := congrArg List.length (e1.symm.trans e2)
+    simp only [List.length_append, hl'] at hlen
+    have := ih h' hr' (by rw [hp']; simp) (by omega)
+    refine ⟨this.1, this.2.1, ?_⟩
+    rw [this.2.2, hl']; omega
+
+/-- **A script of k lines fed to k consecutive prompts yields exactly those k lines** when all
+    bytes are delivered before the first prompt (every prompt starts, reads what is available and
+    ends): the k prompts all finish — no accepting key is lost — and return the first k lines of
+    the typed stream; CPR reports anywhere in `w` make no difference. -/
+theorem all_at_once_k_prompts (w : List Key) (k : Nat) (hk : k ≤ (segments (norm w)).length) :
+    ∀ s, s = run St.init (.write w :: rounds w.length k) →
+    s.running = false ∧ s.results = (segments (norm w)).take k := by
+  intro s hs
+  have h0 : Inv (step St.init (.write w)) w := by simpa [evWritten] using inv_step inv_init (.write w)
+  have hrun : s = run (step St.init (.write w)) (rounds w.length k) := by rw [hs]; rfl
+  have := rounds_complete w.length k h0 (by simp [step, St.init]) (by simp [step, St.init])
+    (by simpa [step, St.init, norm_nil] using hk)
+  rw [← hrun] at this
+  obtain ⟨hi, hr, hl⟩ := this
+  refine ⟨hr, ?_⟩
+  have hc := hi.cons
+  simp only [List.append_assoc] at hc
+  have e1 := segments_flat s.results
+    (cur s.kp ++ (norm s.typeahead ++ (norm s.kp.queue ++ norm s.pipe))) hi.results
+  rw [hc] at e1
+  have hl' : s.results.length = k := by simpa [step, St.init] using hl
+  rw [e1, ← hl']; simp
+
+/-- the same for an explicit script `l₁ Enter … l_k Enter` and an arbitrary line editor -/
+theorem script_all_at_once {α : Type} (render : List Key → α) (lines : List (List Key))
+    (hl : ∀ l ∈ lines, AllOther l) (w : List Key) (hw : norm w = script lines) :
+    ∀ s, s = run St.init (.write w :: rounds w.length lines.length) →
+    s.running = false ∧ s.results.map (fun r => render r.1) = lines.map render ∧
+    s.typeahead = [] ∧ norm s.pipe = [] := by
+  intro s hs
+  have hgood : ∀ r ∈ lines.map (fun l => (l, Key.accept)), GoodRes r := by
+    intro r hr; simp at hr; obtain ⟨l, hl', rfl⟩ := hr; exact ⟨hl l hl', rfl⟩
+  have hseg : segments (norm w) = lines.map (fun l => (l, Key.accept)) := by
+    have := segments_flat _ [] hgood
+    rw [List.append_nil] at this
+    rw [hw, script_eq_flat, this]; simp [segments, segs]
+  obtain ⟨hr, hres⟩ := all_at_once_k_prompts w lines.length (by rw [hseg, List.length_map]; exact Nat.le_refl _) s hs
+  rw [hseg] at hres
+  have hres' : s.results = lines.map (fun l => (l, Key.accept)) := by
+    rw [hres]; exact List.take_of_length_le (by simp)
+  refine ⟨hr, by rw [hres']; simp [Function.comp_def], ?_⟩
+  -- nothing is left over
+  have hi : Inv s w := by
+    have := reachable_inv (.write w :: rounds w.length lines.length)
+    rw [← hs] at this
+    have hw' : written (.write w :: rounds w.length lines.length) = w := by
+      have : ∀ k, written (rounds w.length k) = [] := by
+        intro k; induction k with
+        | zero => rfl
+        | succ k ih => simp [rounds, written, ih]
+      simp [written, this]
+    rwa [hw'] at this
+  have hc := hi.cons
+  rw [hi.idle hr, hres', ← script_eq_flat, hw] at hc
+  simp only [cur, idleKP, norm_nil, List.append_nil, List.append_assoc] at hc
+  have : norm s.typeahead ++ norm s.pipe = [] := by
+    have := List.append_cancel_left (hc.trans (List.append_nil _).symm)
+    exact this
+  have h1 : norm s.typeahead = [] := (List.append_eq_nil_iff.1 this).1
+  have h2 : norm s.pipe = [] := (List.append_eq_nil_iff.1 this).2
+  refine ⟨?_, h2⟩
+  have := hi.taNoCpr
+  have e := dropCpr_of_count_zero _ this
+  simp only [norm, e, List.map_eq_nil_iff] at h1; exact h1
+
+
+/-! ## Non-vacuity: the hypotheses are satisfiable on non-trivial schedules, and the model really
+    exhibits type-ahead (checked by kernel evaluation) -/
+section examples
+
+/-- a schedule with type-ahead, a CPR report before and after the accepting key, c-j and c-c -/
+def exEvs : List Ev :=
+  [.start, .write [.other 97, .cpr, .accept, .other 98], .read 3,
+   .write [.cpr, .cj, .other 99, .abort], .read 10, .finish,
+   .start, .finish, .start, .read 1, .finish]
+
+example : (run St.init exEvs).results =
+    [([.other 97], .accept), ([.other 98], .accept), ([.other 99], .abort)] := by decide
+example : norm (written exEvs) =
+    [.other 97, .accept, .other 98, .accept, .other 99, .abort] := by decide
+-- in the middle of `exEvs`: result set, two CPR reports consumed, later keys kept in the queue
+example : (run St.init (exEvs.take 5)).kp =
+    ⟨[.other 98, .cj, .other 99, .abort], some .accept, [.other 97], 2⟩ := by decide
+-- the same keys, other chunking / CPR placement / read sizes / finish points: same results
+def exEvs' : List Ev :=
+  [.write [.other 97], .write [.accept, .cpr, .cpr, .other 98, .cj], .start, .read 1, .read 1, .finish,
+   .read 7, .start, .write [.other 99], .read 2, .finish, .start, .read 9, .write [.abort, .cpr],
+   .read 1, .finish, .read 1, .start, .finish]
+example : norm (written exEvs) = norm (written exEvs') := by decide
+example : (run St.init exEvs').results = (run St.init exEvs).results := by decide
+example : (run St.init exEvs').results = (run St.init exEvs).results :=
+  results_schedule_independent _ _ (by decide) (by decide)
+
+-- k_lines_k_prompts: hypotheses hold for a 2-line script with a tail, CPRs and c-j in the stream
+example : norm [Key.other 1, .cpr, .other 2, .cj, .cpr, .other 3, .accept, .other 4]
+    = script [[.other 1, .other 2], [.other 3]] ++ [.other 4] := by decide
+example : ∀ l ∈ [[Key.other 1, .other 2], [.other 3]], AllOther l := by
+  intro l hl; simp at hl; rcases hl with rfl | rfl <;> intro k hk <;> simp at hk <;>
+    (rcases hk with rfl | rfl) <;> rfl
+example : NoFin [Key.other 4] := by intro k hk; simp at hk; subst hk; rfl
+
+-- process_keys_splits_at_accept on a queue with CPR reports on both sides of c-j
+example : processKeys ⟨[.other 1, .cpr] ++ .cj :: [.cpr, .other 2, .accept], none, [.other 0], 5⟩ =
+    ⟨[.other 2, .accept], some .accept, [.other 0, .other 1], 7⟩ := by decide
+
+-- accepted_line_frozen / after_accept_goes_next: a reachable state with a result and kept keys
+example : let s := run St.init (exEvs.take 5)
+    s.running = true ∧ s.kp.done = some .accept ∧ s.typeahead = [] ∧ s.kp.queue ≠ [] := by decide
+
+-- all_at_once_k_prompts: 3 lines written at once (with CPR reports), 3 prompts
+example : (segments (norm (written exEvs))).length = 3 := by decide
+example : (run St.init (.write (written exEvs) :: rounds (written exEvs).length 3)).results =
+    [([.other 97], .accept), ([.other 98], .accept), ([.other 99], .abort)] := by decide
+
+-- waiting_prompt_has_everything_read: a prompt that waits although an Enter was typed has it
+-- still unread in the pipe
+example : let s := run St.init [.start, .write [.other 1, .accept], .read 1]
+    s.running = true ∧ s.kp.done = none ∧ s.pipe = [.accept] ∧ s.kp.applied = [.other 1] := by decide
+
+-- the stale reader callback: a read between two prompts leaves the pipe alone
+example : (run St.init [.write [.other 1], .read 5]).pipe = [.other 1] := by decide
+
+end examples
+
 end Ptk.C17
